@@ -5,6 +5,7 @@ package c14
 
 import (
 	"bytes"
+	"compress/gzip"
 	"errors"
 	"fmt"
 	"io"
@@ -53,6 +54,13 @@ func (c Chain) EffM() int64 {
 
 func companionYAML(name string) string {
 	switch name {
+	case "gzip", "gzip-min64":
+		// only ever listed BEFORE size_limit (it wraps it), so that the bytes size_limit counts are the backend's
+		min := "0"
+		if name == "gzip-min64" {
+			min = "64"
+		}
+		return "  - name: gzip\n    config:\n      level: 6\n      min_size: " + min + "\n      content_types:\n        - \"text/\"\n"
 	case "headers":
 		return "  - name: headers\n    config:\n      set:\n        X-Verif-Set: \"on\"\n      request_set:\n        X-Verif-Req: lb\n"
 	default:
@@ -140,7 +148,7 @@ func payload(n int, salt byte) []byte {
 
 // Op is one call on the http.ResponseWriter.
 type Op struct {
-	Op string `json:"op"`          // status | write | flush
+	Op string `json:"op"`          // status | write | flush | hijack (N bytes sent on the raw connection after the 101)
 	N  int    `json:"n,omitempty"` // status: the code; write: number of body bytes
 }
 
@@ -220,6 +228,8 @@ func (p *Program) String() string {
 	return strings.Join(parts, "; ")
 }
 
+const hijackHead = "HTTP/1.1 101 Switching Protocols\r\nUpgrade: verif\r\nConnection: Upgrade\r\n\r\n"
+
 // Record is what the stub observed for one request.
 type Record struct {
 	invoked   atomic.Bool
@@ -282,6 +292,24 @@ func (s *Stub) ServeHTTP(w http.ResponseWriter, r *http.Request) {
 			if f, ok := w.(http.Flusher); ok {
 				f.Flush()
 			}
+		case "hijack":
+			// a protocol switch: take the connection over, answer 101 on the raw connection, send o.N bytes of
+			// the new protocol and close
+			hj, ok := w.(http.Hijacker)
+			if !ok {
+				http.Error(w, "stub: ResponseWriter is not a Hijacker", 500)
+				return
+			}
+			c, brw, err := hj.Hijack()
+			if err != nil {
+				rec.WriteErrs++
+				return
+			}
+			_, _ = brw.WriteString(hijackHead)
+			_, _ = brw.Write(payload(o.N, p.Salt))
+			_ = brw.Flush()
+			_ = c.Close()
+			return
 		case "write":
 			_, err := w.Write(data[off : off+o.N])
 			off += o.N
@@ -556,6 +584,21 @@ func firstDiff(a, b []byte) int {
 			return i
 		}
 	}
+	return n
+}
+
+// deliveredLen is the number of response body bytes the client holds: the decoded length when the response
+// is labelled Content-Encoding: gzip (a gzip plugin OUTSIDE size_limit re-codes what size_limit let through,
+// the coding overhead is not body), else the bytes on the wire. A cut gzip stream counts what it decodes to.
+func deliveredLen(r *lab.RawResponse) int64 {
+	if !strings.EqualFold(r.Header.Get("Content-Encoding"), "gzip") {
+		return int64(len(r.Body))
+	}
+	zr, err := gzip.NewReader(bytes.NewReader(r.Body))
+	if err != nil {
+		return int64(len(r.Body))
+	}
+	n, _ := io.Copy(io.Discard, zr)
 	return n
 }
 
